@@ -121,7 +121,19 @@ func ruleDFIDENT(c *Ctx, r *Report) {
 					}
 				}
 			}
+			// … and on every path: a return of the option that the store does not dominate leaves the parser
+			// without the caller's default field for some names
+			skipped := ""
 			if bound {
+				for _, b := range fs.fn.Blocks {
+					if ret, isRet := b.Instrs[len(b.Instrs)-1].(*ssa.Return); isRet && !fs.st.Block().Dominates(b) {
+						skipped = c.instrPos(ret)
+					}
+				}
+			}
+			if bound && skipped != "" {
+				r.bad(rule, key+"|conditional", c.instrPos(fs.st), fmt.Sprintf("the default-field option stores the field name on some paths only (it can return at %s without storing it): for the names it skips, bare terms stay unscoped although the caller asked for a default field", skipped))
+			} else if bound {
 				r.ok(rule, key, c.instrPos(fs.st), "the option stores its argument unchanged")
 				continue
 			}
@@ -1596,7 +1608,7 @@ func ruleREDUCESITES(c *Ctx, r *Report) {
 						}
 					}
 				}
-				check(c.domAtoms(b))
+				check(c.expand(c.domAtoms(b), nil))
 				if f != pr.ParseLoop {
 					// a helper: the facts at its call sites count as well
 					c.withContexts(f, pr.ParseLoop, 0, func(outer []Atom) { check(outer) })
